@@ -82,11 +82,100 @@ def rule_d1(F):
             r.missing("typechecker::function::" + fn)
             continue
         fb = F.body(cands[0])
-        ok = any(c["m"] == "add_node" and hir.peel_refs(c["args"][0]).get("n") == "item" for c in hir.nodes(fb.hir["value"], "mcall"))
+
+        def registers(body, depth=0):
+            """add_node(<ctx>.item) in this body or in a helper of the same file it calls unconditionally-or-not (one or two levels)"""
+            if any(c["m"] == "add_node" and hir.peel_refs(c["args"][0]).get("n") == "item" for c in hir.nodes(body.hir["value"], "mcall")):
+                return True
+            if depth >= 2:
+                return False
+            for c in list(hir.nodes(body.hir["value"], "mcall")) + list(hir.nodes(body.hir["value"], "call")):
+                d = c.get("def") or hir.call_def(c)
+                hb = F.body(d) if d else None
+                if hb is not None and hb.hir and hb.file == body.file and hb.path != body.path and registers(hb, depth + 1):
+                    return True
+            return False
+        ok = registers(fb)
         r.inst("add_node in " + fn)
         if not ok:
             r.bad(fb.path, "add_node", relfile(fb.file), fb.line, "%s items are no longer registered in the reference graph: they drop out of the compilation order" % fn)
     return r
+
+
+DROPPERS = {"skip", "take", "step_by", "nth", "first", "last", "next", "skip_while", "take_while", "rev", "filter_map", "find_map"}
+
+
+def _closure_or_fn_body(F, b, defs, op):
+    """HIR body of the closure / fn item passed as an argument."""
+    if not mir.is_place_op(op):
+        c = mir.op_const(op)
+        if c is not None and c.get("fn"):
+            fb = F.body(c["fn"])
+            return fb.hir["value"] if fb is not None and fb.hir else None
+        return None
+    for d in defs.whole_defs(op[1][0]):
+        if d[2] == "assign" and d[3]["rv"]["k"] == "agg" and d[3]["rv"].get("ak") == "closure":
+            cb = F.body(d[3]["rv"]["def"])
+            return cb.hir["value"] if cb is not None and cb.hir else None
+        if d[2] == "assign" and d[3]["rv"]["k"] == "use":
+            return _closure_or_fn_body(F, b, defs, d[3]["rv"]["o"])
+    return None
+
+
+def _d2_chain_form(F, b, defs, gs, dom, after):
+    """The component test written as an iterator chain over the components:
+    `.filter(|c| c.len() > 1).flatten()..find(is_constant)` whose Some result leads to the rejection.
+    Returns None if this form is not present, True if it is complete, or a message describing what is missing."""
+    for g in gs:
+        if not any(any(x == e or x in dom[e] for x in g["good"] + g["bad"]) for e in after):
+            continue
+        names_ = [hir.last(c[2]) for c in g["chain"]]
+        if "filter" not in names_ or not ({"find", "any"} & set(names_)):
+            continue
+        if "tarjan" not in names_ and not any("tarjan" in c[2] for c in g["chain"]):
+            # the chain must start at the components
+            pass
+        if not ({"flatten", "flat_map"} & set(names_)):
+            return "the members of a multi-item component are not enumerated (no flatten over the component): not every member is tested"
+        dropped = [n for n in names_ if n in DROPPERS]
+        if dropped:
+            return "the chain that looks for a constant inside a cycle narrows its input with `%s`: not every member of every multi-item component is tested" % dropped[0]
+        size_ok = const_ok = False
+        for c in g["chain"]:
+            t = b.blocks[c[0]]["term"]
+            nm = hir.last(c[2])
+            if nm == "filter" and len(t["args"]) > 1:
+                body = _closure_or_fn_body(F, b, defs, t["args"][1])
+                for cmp_ in hir.nodes(body or {}, "bin"):
+                    lits = [hir.strip(x).get("v") for x in (cmp_["a"], cmp_["b"]) if hir.strip(x).get("k") == "lit"]
+                    has_len = any(m["m"] == "len" for m in hir.nodes(cmp_, "mcall"))
+                    lit_right = hir.strip(cmp_["b"]).get("k") == "lit"
+                    op = cmp_.get("op")
+                    if not lit_right:
+                        op = {"<": ">", ">": "<", "<=": ">=", ">=": "<="}.get(op, op)
+                    if has_len and ((op, lits) in ((">", [1]), (">=", [2]), ("!=", [1]))):
+                        size_ok = True
+            if nm in ("find", "any") and len(t["args"]) > 1:
+                body = _closure_or_fn_body(F, b, defs, t["args"][1])
+                txt = {hir.res_def(n) or "" for n in hir.walk(body or {}) if n.get("k") == "path"} | \
+                      {x for m in hir.nodes(body or {}, "match") for a in m["arms"] for x in hir.pat_paths(a["pat"])} | \
+                      {x for l in hir.nodes(body or {}, "let") for x in hir.pat_paths(l["pat"])}
+                callees = [hir.call_def(c2) for c2 in hir.nodes(body or {}, "call")]
+                for cd in callees:
+                    fb = F.body(cd) if cd else None
+                    if fb is not None and fb.hir:
+                        txt |= {x for m in hir.nodes(fb.hir["value"], "match") for a in m["arms"] for x in hir.pat_paths(a["pat"])}
+                        txt |= {hir.pat_desc(l["pat"]) for l in hir.nodes(fb.hir["value"], "let")}
+                if any("ValueKind::Constant" in x for x in txt) or any("Constant" in hir.pat_desc(mm) for mm in [a["pat"] for m in hir.nodes(body or {}, "match") for a in m["arms"]]):
+                    const_ok = True
+                elif body is not None and any("Constant" in str(x) for x in txt):
+                    const_ok = True
+        if not size_ok:
+            return "the chain that looks for a constant inside a cycle does not restrict itself to (all) components with more than one member (`len() > 1`)"
+        if not const_ok:
+            return "the chain over the members of a cycle does not test whether a member is a constant"
+        return True
+    return None
 
 
 def rule_d2(F):
@@ -132,12 +221,19 @@ def rule_d2(F):
                     continue
                 if any(any(gt in dom[e] for gt in g["good"]) for e in after):
                     depth = max(depth, max(mir.loop_depth(b, n, loops) for n in nexts))
-            r.inst("component members examined individually", {"loop_nesting_of_rejection": depth})
-            if depth < 2:
+            chain_form = _d2_chain_form(F, b, defs, gs, dom, after) if depth < 2 else None
+            r.inst("component members examined individually", {"loop_nesting_of_rejection": depth, "iterator_chain_form": chain_form})
+            if chain_form is not None:
+                if chain_form is not True:
+                    r.bad(b.path, "component test", relfile(b.file), b.blocks[after[0]]["term"]["line"], chain_form)
+                continue_size_test = False
+            else:
+                continue_size_test = True
+            if depth < 2 and chain_form is None:
                 r.bad(b.path, "component test", relfile(b.file), b.blocks[after[0]]["term"]["line"],
                       "the rejection of a cycle is not inside a loop over the members of the component: not every member is tested, so a cycle with a single constant (e.g. `const A = foo(); fn foo() { A }`) can pass")
             lens = [bi for bi, t in mir.calls(b) if hir.last(mir.callee_def(t)) == "len" and tj[0] in dom[bi]]
-            gt1 = False
+            gt1 = not continue_size_test
             for bi2, blk in enumerate(b.blocks):
                 for st in blk["stmts"]:
                     if st["k"] == "assign" and st["rv"]["k"] == "bin" and st["rv"]["op"] in ("Gt", "Ge", "Lt", "Le", "Eq", "Ne"):
@@ -208,13 +304,20 @@ def rule_d3(F):
                         pushed_in_loop.add(l)
 
         def what(e):
-            l = hir.res_local(hir.peel_refs(hir.strip(e)))
+            """what is appended: the generated helpers (result of a generate_* call) or the user items (collected from the MIR items)"""
+            e0 = hir.peel_refs(hir.strip(e))
+            l = hir.res_local(e0)
             if l in pushed_in_loop:
                 return "functions"
             d = pld.get(l) if l is not None else None
-            gen = [hir.last(hir.call_def(c) or "") for c in hir.nodes(d[1], "call")] if d and d[1] is not None else []
+            src = d[1] if d and d[1] is not None else e0
+            gen = [hir.last(hir.call_def(c) or "") for c in hir.nodes(src, "call")]
             gen = [g for g in gen if g.startswith("generate_")]
-            return gen[0] if gen else "?"
+            if gen:
+                return gen[0]
+            if any(n.get("k") == "field" and n.get("n") == "items" for n in hir.walk(src)):
+                return "functions"
+            return "?"
         seq = []
         for s_ in st:
             for c in hir.nodes(s_, "mcall"):
@@ -233,26 +336,40 @@ def rule_d3(F):
     if cb is None:
         r.missing("codegen::codegen")
         return r
-    dom = mir.dominators(cb)
-    defs = mir.Defs(cb)
-    df = [bi for bi, t in mir.calls(cb) if hir.last(mir.callee(t)) == "define_function"]
-    fin = [bi for bi, t in mir.calls(cb) if hir.last(mir.callee_def(t)) == "finalize_definitions"]
-    ind = [bi for bi, t in mir.calls(cb) if "ind" in t["f"]]
-    ins = [bi for bi, t in mir.calls(cb) if hir.last(mir.callee_def(t)) == "insert" and t["args"] and mir.is_place_op(t["args"][0]) and "roto_constants" in mir.origin_key(cb, defs, t["args"][0][1])]
-    r.inst("codegen constant chain", {"define_function": df, "finalize_definitions": fin, "initialiser_call": ind, "insert": ins})
+    # the chain lives in codegen() itself or in a helper it calls for a constant item (e.g. ModuleBuilder::initialize_constant)
+    chain_body = cb
+    helper_calls = None
+    if not any("ind" in t["f"] for _, t in mir.calls(cb)):
+        for bi, t in mir.calls(cb):
+            hb = F.body(mir.callee(t))
+            if hb is not None and hb.mir and hb.file == cb.file and any("ind" in u["f"] for _, u in mir.calls(hb)) \
+                    and any(hir.last(mir.callee_def(u)) == "insert" for _, u in mir.calls(hb)):
+                chain_body = hb
+                helper_calls = [x for x, u in mir.calls(cb) if mir.callee(u) == hb.path]
+    kb = chain_body
+    dom = mir.dominators(kb)
+    defs = mir.Defs(kb)
+    df = [bi for bi, t in mir.calls(kb) if hir.last(mir.callee(t)) == "define_function"]
+    fin = [bi for bi, t in mir.calls(kb) if hir.last(mir.callee_def(t)) == "finalize_definitions"]
+    ind = [bi for bi, t in mir.calls(kb) if "ind" in t["f"]]
+    ins = [bi for bi, t in mir.calls(kb) if hir.last(mir.callee_def(t)) == "insert" and t["args"] and mir.is_place_op(t["args"][0]) and "roto_constants" in mir.origin_key(kb, defs, t["args"][0][1])]
+    r.inst("codegen constant chain", {"in": kb.path, "define_function": df, "finalize_definitions": fin, "initialiser_call": ind, "insert": ins, "helper_call_sites_in_codegen": helper_calls})
     ok = False
     if df and fin and ind and ins:
         for d in df:
             for f in fin:
                 for i in ind:
-                    for s in ins:
-                        if d in dom[f] and f in dom[i] and i in dom[s] and len({d, f, i, s}) == 4:
+                    for s_ in ins:
+                        if d in dom[f] and f in dom[i] and i in dom[s_] and len({d, f, i, s_}) == 4:
                             ok = True
     if not ok:
-        r.bad(cb.path, "constant evaluation chain", relfile(cb.file), cb.line,
+        r.bad(cb.path, "constant evaluation chain", relfile(kb.file), kb.line,
               "a constant must be defined, its code finalized, its initialiser called and only then stored: define_function < finalize_definitions < initialiser < insert is not a dominance chain")
-    if len(ind) != 1:
-        r.bad(cb.path, "single evaluation", relfile(cb.file), cb.line, "expected exactly one initialiser call site in codegen (found %d): constants would be evaluated more or less than once" % len(ind))
+    if len(ind) != 1 or (helper_calls is not None and len(helper_calls) != 1):
+        r.bad(cb.path, "single evaluation", relfile(cb.file), cb.line, "expected exactly one initialiser call site per constant in codegen (found %d%s): constants would be evaluated more or less than once"
+              % (len(ind), "" if helper_calls is None else ", helper called from %d sites" % len(helper_calls)))
+    dom = mir.dominators(cb)
+    defs = mir.Defs(cb)
     # the item loop is a forward loop over `ir`
     for bi, t in mir.calls(cb):
         if hir.last(mir.callee_def(t)) == "into_iter":
